@@ -963,6 +963,7 @@ caption_command(vbi_decoder *vbi, struct caption *cc,
 				ch->row1 = row1;
 				erase_memory(cc, ch, ch->hidden);
 				erase_memory(cc, ch, ch->hidden ^ 1);
+				clear(ch->pg + (ch->hidden ^ 1));
 			}
 
 			set_cursor(ch, 1, ch->row1 + ch->roll - 1);
